@@ -217,6 +217,41 @@ func checkC05(c *Ctx) {
 						"argument derives from the Write count", "the byte counter is fed from something other than the number of bytes actually written: reported counts differ from delivered bytes on short writes")
 				}
 			})
+			// every delivered count is in the tunnel's counter before halfPipe returns (whichever exit is taken)
+			if len(nw) > 0 {
+				isCounter := func(name string, _ *ssa.CallCommon) bool {
+					return strings.HasSuffix(name, ".addBytes") || strings.HasSuffix(name, "tunnelStats).addBytes")
+				}
+				publishes := map[ssa.Instruction]bool{}
+				eachInstr(hp, func(in ssa.Instruction) {
+					ci, ok := in.(ssa.CallInstruction)
+					if !ok {
+						return
+					}
+					if _, isDefer := in.(*ssa.Defer); isDefer {
+						return
+					}
+					if calleeShort(ci.Common()) == "addBytes" {
+						if a := argsOf(ci.Common()); len(a) > 0 && dependsOn(a[0], nw[0]) {
+							publishes[in] = true
+						}
+						return
+					}
+					for _, t := range closureTargets(hp, ci.Common()) {
+						if t.Parent() == hp && len(callsIn(t, isCounter)) > 0 {
+							// a local helper that publishes an accumulator: it counts only if the accumulator is fed from nw
+							publishes[in] = true
+						}
+					}
+				})
+				lost, w := reach(hp, wr, isReturn, anyOf(publishes), nil)
+				if lost || len(publishes) == 0 {
+					r.Bad("C05.2", "halfPipe: an exit is reachable after a write whose count has not been added to the tunnel counter", wr.Pos(), fnName(hp),
+						"after dst.Write returned there is a path to a return that passes no addBytes for that count (e.g. counts are batched and only published on some exits): the byte counts reported for the tunnel are smaller than the bytes delivered", r.blockPath(hp, w)...)
+				} else {
+					r.OK("C05.2", "halfPipe: every write count is added to the tunnel counter before any exit", wr.Pos(), fmt.Sprintf("%d publishing call(s), must-pass from the Write to every return", len(publishes)))
+				}
+			}
 			// C05.3
 			if len(nw) > 0 && len(n) > 0 {
 				eqEdges := edgesEstablishing(hp, atomMatcher(Atom{"(" + orderEq(pathOf(nw[0]), pathOf(n[0])) + ")", true}))
@@ -245,6 +280,7 @@ func checkC05(c *Ctx) {
 		// C05.4 teardown in halfPipe
 		var doneDefer, closeDefer *ssa.Defer
 		closesPaths := map[string]bool{}
+		var condClose []string
 		eachInstr(hp, func(in ssa.Instruction) {
 			d, ok := in.(*ssa.Defer)
 			if !ok {
@@ -270,6 +306,12 @@ func checkC05(c *Ctx) {
 					}
 					if mustCallOn(target, "Close", target.Params[0]) {
 						if len(call.Common().Args) > 0 {
+							// the teardown closes this side on EVERY path through the deferred closure (not only when some
+							// flag says the side is "still open")
+							if skip, _ := reach(cf, nil, isReturn, isInstr(ci), nil); skip {
+								condClose = append(condClose, pathOf(call.Common().Args[0]))
+								continue
+							}
 							closesPaths[pathOf(call.Common().Args[0])] = true
 							closeDefer = d
 						}
@@ -289,7 +331,7 @@ func checkC05(c *Ctx) {
 		}
 		if closeDefer == nil || !(closesPaths["src"] && closesPaths["dst"]) {
 			r.Bad("C05.4", "halfPipe: deferred close of both connections", hp.Pos(), fnName(hp),
-				fmt.Sprintf("the deferred teardown does not reach Close() on every path for both src and dst (closes: %v): when one direction ends the other side stays open", keysOf(closesPaths)))
+				fmt.Sprintf("the deferred teardown does not reach Close() on every path for both src and dst (closes unconditionally: %v; only conditionally: %v): when one direction ends the other side stays open - an EOF or EPIPE means the PEER is gone, the local connection still has to be closed", keysOf(closesPaths), condClose))
 		} else if esc, w := firstRet(closeDefer); esc {
 			r.Bad("C05.4", "halfPipe: return before the closing defer is registered", closeDefer.Pos(), fnName(hp), "a return precedes the registration of the deferred close of both connections", r.blockPath(hp, w)...)
 		} else {
